@@ -234,11 +234,36 @@ func run(in input) (obs []Sx) {
 	return obs
 }
 
+// Cases of the open finding F9 are reported one by one as known findings; lib/check.py resolves the case lines
+// of at most 2000 findings per run, so their number is capped (and the exhaustive scopes are thinned).
+var (
+	wsLastBlankSeen    int
+	wsLastBlankEmitted int
+)
+
+const wsLastBlankCap = 1500
+
 func emit(c *Config, in input) {
 	kind := in.kind
 	if in.ws && (lastLineBlank(in.a) || lastLineBlank(in.b)) {
 		// separate kind: WhitespaceIgnore and a blob whose last line is non-empty and all spaces
 		kind = "wslastblank"
+		if c.Replay == "" {
+			wsLastBlankSeen++
+			stride := 1
+			if strings.HasPrefix(in.kind, "exh") {
+				stride = 8
+				if c.Thorough() {
+					stride = 256
+				}
+			} else if c.Thorough() {
+				stride = 16
+			}
+			if wsLastBlankSeen%stride != 0 || wsLastBlankEmitted >= wsLastBlankCap {
+				return
+			}
+			wsLastBlankEmitted++
+		}
 	}
 	if distinctLines(api.StripWhitespace(string(in.a), in.ws), api.StripWhitespace(string(in.b), in.ws)) > 55295 {
 		// separate kind: the line ids of DiffLinesToRunes reach the UTF-16 surrogate range 0xD800..0xDFFF
